@@ -7,6 +7,7 @@ import (
 	"net/http/httptest"
 	"strings"
 	"sync"
+	"time"
 
 	"github.com/0xReLogic/Helios/internal/config"
 	"github.com/0xReLogic/Helios/internal/loadbalancer"
@@ -158,6 +159,11 @@ func init() {
 			bes := newBackends(c.N)
 			defer closeBackends(bes)
 			cfg := baseConfig(c.Strategy, bes)
+			if (c.N+c.Round)%2 == 1 {
+				// the other features that look at the client address are on as well (limits out of reach)
+				cfg.RateLimit = config.RateLimitConfig{Enabled: true, MaxTokens: 1000000, RefillRate: 1}
+				cfg.Logging.RequestID.Enabled = true
+			}
 			sys, err := startSys(cfg, bes, c.Sockets)
 			if err != nil {
 				o.Inconcl("startSys: %v", err)
@@ -206,6 +212,7 @@ func init() {
 					member{"xff-list-ows", a + " , " + other, other, "", "", ""},
 					member{"xff+xri", a, other, "", "", ""},
 					member{"xri", "", a, other + ":9", "", ""},
+					member{"xri-list", "", a + ", " + other, "", "", ""},
 				)
 				if peerOK {
 					ms = append(ms, member{"peer", "", "", host + ":40000", "", ""}, member{"peer-port2", "", "", host + ":40001", "", ""})
@@ -321,6 +328,8 @@ func init() {
 				cs = append(cs, c06Pool{"eject", st, 16})
 			}
 			cs = append(cs, c06Pool{"append", "ip_hash_consistent", 16})
+			// the same while one / two of the older backends are ejected: appending still moves clients to the new backend only
+			cs = append(cs, c06Pool{"append-ejected1", "ip_hash_consistent", 12}, c06Pool{"append-ejected2", "ip_hash_consistent", 12})
 			return cs
 		},
 		func(e *vh.Env, c c06Pool, o *vh.Out) {
@@ -420,18 +429,33 @@ func init() {
 			// append history through the admin handler
 			cfg := baseConfig(c.Strategy, nil)
 			cfg.Backends = append(cfg.Backends, config.BackendConfig{Name: "b0", Address: "http://127.0.0.1:9", Weight: 1})
+			start := 2
+			if strings.HasPrefix(c.Kind, "append-ejected") {
+				for i := 1; i < 5; i++ {
+					cfg.Backends = append(cfg.Backends, config.BackendConfig{Name: fmt.Sprintf("b%d", i), Address: "http://127.0.0.1:9", Weight: 1})
+				}
+				start = 6
+			}
 			sys, err := startSys(cfg, nil, false)
 			if err != nil {
 				o.Inconcl("startSys: %v", err)
 				return
 			}
 			defer sys.Close()
+			if strings.HasPrefix(c.Kind, "append-ejected") {
+				live := sys.LB.VerifBackends()
+				sys.LB.MarkBackendUnhealthy(live[1], 1000*time.Hour)
+				if c.Kind == "append-ejected2" {
+					sys.LB.MarkBackendUnhealthy(live[3], 1000*time.Hour)
+				}
+				o.Obs("appends_with_ejected_members", 1)
+			}
 			adm := sys.admin()
 			prev := map[string]string{}
 			for _, cl := range clients {
 				prev[cl], _ = pick(sys, cl)
 			}
-			for n := 2; n <= c.N; n++ {
+			for n := start; n <= c.N; n++ {
 				name := fmt.Sprintf("b%d", n-1)
 				w := adminDo(adm, "POST", "/v1/backends/add", "127.0.0.1:1", nil, fmt.Sprintf(`{"name":%q,"address":"http://127.0.0.1:9","weight":1}`, name))
 				if w.Code != 201 {
@@ -449,7 +473,7 @@ func init() {
 					if now != prev[cl] {
 						moved++
 						if now != name {
-							o.Viol("C06|append|moved-to-old-backend", fmt.Sprintf("appending %s moved client %q from %s to %s", name, cl, prev[cl], now), map[string]any{"pool": n, "client": cl, "hash": hash32(cl)})
+							o.Viol("C06|"+c.Kind+"|moved-to-old-backend", fmt.Sprintf("appending %s moved client %q from %s to %s", name, cl, prev[cl], now), map[string]any{"pool": n, "client": cl, "hash": hash32(cl)})
 						}
 					}
 					prev[cl] = now
